@@ -99,9 +99,15 @@ def is_bad_type_error(c, e, data, expected_classes):
     )
 
 
-def empty_dict(c, d):
+def no_keys(c, d):
+    """producer-side fact about a fresh empty dict: no key at all"""
     k = z3.Const("k", Val)
-    return T.forall([k], z3.Not(c.dhas(d, k)), patterns=[c.dhas(d, k)])
+    return z3.And(c.dlen(d) == 0, T.forall([k], z3.Not(c.dhas(d, k)), patterns=[c.dhas(d, k)]))
+
+
+def empty_dict(c, d):
+    """a dict is empty iff its length is 0 (dict stores keep dlen in step with membership)"""
+    return c.dlen(d) == 0
 
 
 def no_messages(c, e):
@@ -179,4 +185,4 @@ def is_json_like(d):
 def is_message_error(c, e, msg):
     """`e` is ValidationError(msg) for a single message"""
     m, ch = c.attr(e, "messages"), c.attr(e, "children")
-    return z3.And(cls(e) == K("ValidationError"), isinst(m, "list"), c.llen(m) == 1, c.lget(m, 0) == msg, isinst(ch, "dict"), c.dlen(ch) == 0, empty_dict(c, ch))
+    return z3.And(cls(e) == K("ValidationError"), isinst(m, "list"), c.llen(m) == 1, c.lget(m, 0) == msg, isinst(ch, "dict"), c.dlen(ch) == 0, empty_dict(c, ch), c.alloc(e), c.alloc(m), c.alloc(ch))
